@@ -106,6 +106,8 @@ def model_request(kind, p):
         return ("ckkbound", [p["k"], p["heaps"]])
     if kind == "find_diff":
         return ("finddiff", [p["l1"], p["l1"], p["l2"], p["l2"]])
+    if kind == "binner_ops":
+        return ("heap_run", [p["ops"]])
     if kind == "bc_util":
         f = p["fn"]
         if f == "fbc":
@@ -158,6 +160,8 @@ def norm_model(kind, p, r):
         return {"combos": r}
     if kind == "find_diff":
         return {"list": r}
+    if kind == "binner_ops":
+        return {"obs": r}
     if kind == "bc_util":
         return {"bool": r} if p["fn"] == "isdom" else {"lists": r}
     return {"raw": r}
